@@ -313,6 +313,7 @@ def walk (f : Ast → Option Ast) : Ast → Nat → Ast × Nat
     let (g', k) := walk f g k; let (a', k) := walk f a k; (.call g' a', k)
   | .neg e, k => tryAt f (.neg e) k fun k => let (e', k) := walk f e k; (.neg e', k)
   | .dot e n, k => tryAt f (.dot e n) k fun k => let (e', k) := walk f e k; (.dot e' n, k)
+  | .un op e, k => tryAt f (.un op e) k fun k => let (e', k) := walk f e k; (.un op e', k)
   | .bin op a b, k => tryAt f (.bin op a b) k fun k =>
     let (a', k) := walk f a k; let (b', k) := walk f b k; (.bin op a' b', k)
   | .and_ a b, k => tryAt f (.and_ a b) k fun k =>
@@ -397,6 +398,7 @@ def renameVar (old new : String) : Ast → Ast
   | .call g a => .call (renameVar old new g) (renameVar old new a)
   | .neg e => .neg (renameVar old new e)
   | .dot e n => .dot (renameVar old new e) n
+  | .un op e => .un op (renameVar old new e)
   | .bin op a b => .bin op (renameVar old new a) (renameVar old new b)
   | .and_ a b => .and_ (renameVar old new a) (renameVar old new b)
   | .or_ a b => .or_ (renameVar old new a) (renameVar old new b)
@@ -754,9 +756,63 @@ def genLogicLit (id : String) : Gen Case := do
   let (stratum, vs) ← genLogicLitAsts
   pure (mkMeta id stratum (← vs.mapM rend))
 
+/-! ## stacked prefix operators (`- -x`, `-+x`, `!-x`, `^ ^s`, …) against their parenthesised forms -/
+
+/-- operands on which negation is not an involution, or not numeric -/
+def unaryOperands : List Ast :=
+  let w (a : Ast) : Ast := tupOf [("@neg", a)]
+  -- `(@neg: n)` and nested wrappers: the values on which `-` is NOT an involution (`-(@neg: 2)` is 2, `-2` is -2)
+  [w (.num 2), w (.num 2), w (.num 0), w (.num 5), w (.num 7), w (w (.num 1)), w (w (.num 1)), w (w (w (.num 3))),
+   w (w (.str [97])), w (.neg (.num 4)),
+   -- values that `-` wraps, numbers, and wrappers of non-numbers (there `-` is an involution)
+   .num 2, .num 0, .num 5, w (.str [97]), w (setOf []), .str [97], .str [], setOf [.num 1], setOf [.num 1, .num 2], setOf [],
+   tupOf [("a", .num 1)], tupOf [], .tt, .ff, arrOf [.num 1], tupOf [("@neg", .num 1), ("a", .num 2)], .neg (.num 0)]
+
+def applyUn (k : Nat) (e : Ast) : Ast :=
+  match k with
+  | 0 | 1 | 2 | 3 => .neg e
+  | 4 => .un .pos e
+  | 5 => .un .not e
+  | _ => .un .pset e
+
+/-- `ops` applied innermost first; `parenAt i` puts redundant parentheses around the operand of the i-th operator -/
+def stackUn (ops : List Nat) (x : Ast) (parenMask : Nat) : Ast :=
+  (ops.zipIdx.foldl (fun (acc : Ast) (k, i) => applyUn k (if i > 0 && (parenMask >>> i) % 2 == 1 then .paren acc else acc)) x)
+
+def genUnaryAsts : Gen (String × List Ast) := do
+  let depth := (← rand 2) + 2
+  let lit ← pick unaryOperands
+  let isSet := match lit with | .coll .set _ => true | .tt => true | .ff => true | .str _ => true | _ => false
+  -- mostly `-`, also `+` and `!`; a power set only as the innermost operator(s) of a set operand
+  let mut ops ← genList depth (rand 6)
+  if isSet && (← chance 1 3) then
+    ops := [7] ++ ops.drop 1
+    if ← chance 1 3 then ops := [7, 7] ++ ops.drop 2
+  let bound ← chance 1 2
+  let x : Ast := if bound then .ident "w" else lit
+  let ctx ← rand 12
+  let wrap (a : Ast) : Ast :=
+    let a := match ctx with
+      | 0 => Ast.bin .pow a (.num 2)            -- prefix operators bind tighter than `^`
+      | 1 => .bin .sub (.num 1) a
+      | 2 | 3 => arrOf [a, .num 7]
+      | 4 | 5 => .bin .eq a lit
+      | _ => a
+    if bound then .let_ (.ident "w") lit a else a
+  let all := (1 <<< depth) - 1
+  let some_ ← rand (all + 1)
+  pure (s!"unary/{depth}", [wrap (stackUn ops x 0), wrap (stackUn ops x all), wrap (stackUn ops x some_)])
+
+def genUnary (id : String) : Gen Case := do
+  let (stratum, vs) ← genUnaryAsts
+  match vs with
+  | [a, b, c] => pure (mkMeta id stratum [← rend a, plain b, fullv a, ← rend c])
+  | _ => pure (mkMeta id stratum (← vs.mapM rend))
+
 def kinds : List String :=
   ["let", "let", "sugar", "dot", "dot", "paren", "paren", "parenfn", "trivia", "subst", "subst", "short", "short",
-   "scope", "gap", "nested", "nested", "nested", "alias", "alias", "alias", "agree", "logic", "logic", "logic", "sugar"]
+   "scope", "gap", "nested", "nested", "nested", "alias", "alias", "alias", "agree", "logic", "logic", "logic", "sugar",
+   "unary", "unary", "unary"]
 
 /-- is the rewrite kind applicable somewhere in `t`? -/
 def applicable (kind : String) (t : Ast) : Bool :=
@@ -793,6 +849,7 @@ def genCase (idx : Nat) (thorough : Bool) : Gen Case := do
     | some [a, b, c, r1, r2] => pure (mkMeta id "sugar" [← rend a, ← rend b, ← rend c, ← rend r1, ← rend r2])
     | _ => fallback
   | "logic" => genLogicLit id
+  | "unary" => genUnary id
   | "dot" =>
     let fresh ← pick ["v1", "arg", "it"]
     match ← applyAt t [dotSame, dotExplicit, dotFresh fresh] with
@@ -949,6 +1006,10 @@ def corpus : List Case :=
         (.let_ (.ident "x") (.num 2) (.ident "y")))), plain one],
     mkMeta "C08-corpus-18" "corpus" [plain (.let_ (.ident "x") one (.let_ (.ident "y") (.ident "x")
         (.opFn .seq (arrOf [.num 5, .num 6]) (.ident "x") (.ident "y")))), plain (arrOf [one, one])] ] ++
+  -- stacked unary minus on an `@neg` wrapper: `- -w` is `-(-w)` is -2, not w
+  [ mkMeta "C08-corpus-19" "corpus" [plain (.let_ (.ident "w") (tupOf [("@neg", .num 2)]) (.neg (.neg (.ident "w")))),
+      plain (.let_ (.ident "w") (tupOf [("@neg", .num 2)]) (.neg (.paren (.neg (.ident "w"))))), plain (.neg (.num 2))],
+    mkMeta "C08-corpus-20" "corpus" [plain (.un .not (.un .not (.num 2))), plain (.un .not (.paren (.un .not (.num 2)))), plain .tt] ] ++
   -- every failing snippet alone is an error (and only an error: never a panic)
   (rawSnippets.zipIdx.map fun (sn, i) => mkMeta s!"C08-corpus-err{i}" "err-snippet" [plain (rawErr sn), plain (.ident "zz")])
 
